@@ -3,6 +3,7 @@ package main
 // Calls: contracts, inlining, builtins, havoc; inferred modifies sets.
 
 import (
+	"strconv"
 	"os"
 	"fmt"
 	"go/token"
@@ -1454,7 +1455,16 @@ func (fr *Frame) builtin(in ssa.Instruction, bi *ssa.Builtin, c *ssa.CallCommon,
 			oldElem := sx("select", sx("select", old, s.Sub[0].S), e.idxAdd(s.Sub[1].S, e.idxSub(q, toff)))
 			keepElem := sx("select", sx("select", old, tb), q)
 			if fc.thin {
-				st = st.setRaw(an, sym(nw)) // thin mode: element contents after append are not tracked
+				// thin mode: element contents after append are not tracked in general; a prefix of small constant
+				// length (args := buf[0:5]; args[0] = ...; args = append(args, more...)) is kept by ground facts
+				if k, err := strconv.Atoi(s.Sub[2].S); err == nil && k >= 0 && k <= 8 && m.mode == ModeInt {
+					for j := 0; j < k; j++ {
+						js := fmt.Sprint(j)
+						fc.define(sImp(sNot(sEq(tb, "0")), sEq(sx("select", sx("select", sym(nw), tb), e.idxAdd(toff, js)),
+							sx("select", sx("select", old, s.Sub[0].S), e.idxAdd(s.Sub[1].S, js)))))
+					}
+				}
+				st = st.setRaw(an, sym(nw))
 				continue
 			}
 			rowDef := fmt.Sprintf("(forall ((q!i %s)) (! (= (select (select %s %s) q!i) (ite %s %s (ite %s %s %s))) :pattern ((select (select %s %s) q!i))))",
